@@ -70,6 +70,8 @@ def gen_cases(tier, seed):
         for pi, pair in enumerate(c20.discover_pairs()):
             for side in ("rx", "tx"):
                 cases.append({"kind": "pair", "pair": list(pair), "side": side, "target": TARGETS[(pi + rep + (side == "tx")) % 3], "direction": ["from-receivers", "from-partner"][(pi + rep) % 2], "children": True, "rep": rep})
+        for t in ("other-workspace", "same-parent"):
+            cases.append({"kind": "root", "target": t, "rep": rep})
         for i in range(6):
             cases.append({"kind": "data", "dkind": gen.DATA_KINDS[(i + rep) % len(gen.DATA_KINDS)], "target": ["same-parent", "other-object"][i % 2], "rep": rep})
     return cases
@@ -477,6 +479,8 @@ def run_case(case, rec):
             run_drill(case, rec, rng, scene)
         elif kind == "pair":
             run_pair(case, rec, rng, scene)
+        elif kind == "root":
+            run_root(case, rec, rng, scene)
         else:
             run_data(case, rec, rng, scene)
     finally:
@@ -585,6 +589,57 @@ def run_group(case, rec, rng, scene):
     rec.nontrivial = new is not None
     rec.shape = ["group", cname, case["target"], [type(o).__name__ for o in objs]]
     rec.sample = {"class": cname, "target": case["target"], "objects": [type(o).__name__ for o in objs]}
+
+
+def run_root(case, rec, rng, scene):
+    """'Everything in this workspace' is its root group.  A workspace has one root, so the copy cannot be one: whatever it is, it
+    holds copies of the root's children, the workspace that receives it keeps its own content, and the source is unchanged."""
+    from geoh5py.objects import Points
+    from geoh5py.workspace import Workspace
+
+    for k in range(2):
+        o = gen.build_object(scene.ws, rng.choice(["Points", "Curve"]), parent=scene.home if k else None, rng=rng, name=f"content {k}", base=50 * k)
+        populate(o, rng, rec)
+    own = Points.create(scene.ws2, vertices=np.zeros((2, 3)), name="own content of the target")
+    own_uid = own.uid
+    own = None
+    where = f"copy-root:{case['target']}"
+    before = snap.api_snapshot(scene.ws)
+    src_children = sorted((type(c).__name__, c.name) for c in scene.ws.root.children)
+    try:
+        new = scene.ws.root.copy(parent=scene.ws2 if case["target"] == "other-workspace" else None)
+    except Exception as exc:  # noqa: BLE001
+        from ..core import exc_origin
+
+        if not exc_origin(exc)[0]:
+            raise
+        rec.see("root-copy-refused:" + type(exc).__name__)  # a refusal leaves everything as it was: judged below
+        new = None
+    rec.see("copies-judged")
+    rec.see("root-copies")
+    if new is not None:
+        got = sorted((type(c).__name__, c.name) for c in new.children if c.uid != new.uid and (case["target"] != "same-parent" or c is not new))
+        rec.check("C12.subtree", got == src_children, op=where, cls="RootGroup", attr="children", detail=f"the copy of the root holds {got}, the root held {src_children}")
+        rec.check("C12.differs", new is not new.workspace.root and new.parent is not None, op=where, cls="RootGroup", attr="second-root", detail=f"the copy is a {type(new).__name__} without a parent (a second root)")
+    after = snap.api_snapshot(scene.ws)
+    ignore = set()
+    for u in set(after) - set(before):
+        ignore |= _subtree(after, u)
+    check_unchanged(rec, before, after, where, "RootGroup", ignore_uids=ignore, allow_children_of={str(scene.ws.root.uid)})
+    new = None
+    path2 = scene.ws2.h5file
+    scene.ws2.close()
+    try:
+        with Workspace(path2, mode="r") as fresh:
+            kept = fresh.get_entity(own_uid)[0]
+            rec.check("C12.source-changed", kept is not None and kept.name == "own content of the target" and any(c.uid == own_uid for c in fresh.root.children), op=where, cls="Workspace", attr="target-content", detail=f"what the receiving workspace held before is no longer under its root after re-opening (root children: {[c.name for c in fresh.root.children]})")
+            rec.evals["C02-like.layout"] += 1
+    except Exception as exc:  # noqa: BLE001
+        rec.fail("C12.source-changed", op=where, cls="Workspace", attr="target-unreadable", detail=f"the receiving workspace cannot be opened after the copy: {type(exc).__name__}: {short(str(exc), 160)}")
+    scene.ws2.open()
+    rec.nontrivial = True
+    rec.shape = ["root", case["target"]]
+    rec.sample = {"kind": "root", "target": case["target"]}
 
 
 def run_data(case, rec, rng, scene):
